@@ -1,6 +1,6 @@
 (* C43 -- proofs about Model/CpuSetModel.v: set algebra of CpuSet, parseLinuxCpuList, buildGroupsFromCacheTopology *)
 From Coq Require Import ZArith List Bool Lia Permutation Sorted.
-From DV Require Import Model.CpuSetModel.
+From DV Require Import Base.Corr Model.CpuSetModel Model.C43Check.
 Import ListNotations.
 Local Open Scope Z_scope.
 
@@ -13,6 +13,12 @@ Proof. unfold in_cap, CAP. rewrite andb_true_iff, Z.leb_le, Z.ltb_lt. tauto. Qed
 
 Lemma in_cap_false i : in_cap i = false <-> ~ (0 <= i < 1024).
 Proof. rewrite <- in_cap_iff. destruct (in_cap i); split; congruence. Qed.
+
+Lemma widx_eq i : widx i = Z.to_nat (i / 64).
+Proof. unfold widx. rewrite Z.shiftr_div_pow2 by lia. reflexivity. Qed.
+
+Lemma bidx_eq i : bidx i = i mod 64.
+Proof. unfold bidx. change 63 with (Z.ones 6). rewrite Z.land_ones by lia. reflexivity. Qed.
 
 Lemma upd_nth_length n f l : length (upd_nth n f l) = length l.
 Proof. revert n; induction l as [|x r IH]; intros [|n]; simpl; auto. Qed.
@@ -72,13 +78,13 @@ Proof. split; [reflexivity|]. unfold cs_empty, NWORDS; simpl. repeat constructor
 Lemma set_bit_wf s i : cs_wf s -> 0 <= i < 1024 -> cs_wf (set_bit s i).
 Proof.
   intros [L F] H. split; [unfold set_bit; rewrite upd_nth_length; exact L|].
-  apply upd_nth_Forall; [exact F|]. intros x Hx. apply lor_bound; [lia|exact Hx|apply pow2_bound; lia].
+  apply upd_nth_Forall; [exact F|]. intros x Hx. rewrite bidx_eq. apply lor_bound; [lia|exact Hx|apply pow2_bound; lia].
 Qed.
 
 Lemma clr_bit_wf s i : cs_wf s -> 0 <= i < 1024 -> cs_wf (clr_bit s i).
 Proof.
   intros [L F] H. split; [unfold clr_bit; rewrite upd_nth_length; exact L|].
-  apply upd_nth_Forall; [exact F|]. intros x Hx. apply ldiff_bound; [lia|exact Hx|]. apply pow2_bound; lia.
+  apply upd_nth_Forall; [exact F|]. intros x Hx. rewrite bidx_eq. apply ldiff_bound; [lia|exact Hx|]. apply pow2_bound; lia.
 Qed.
 
 Lemma same_slot i j : 0 <= i < 1024 -> 0 <= j < 1024 ->
@@ -88,7 +94,7 @@ Proof. intros Hi Hj. split; [intros [A B]|intros ->; auto]. assert (i / 64 = j /
 Lemma test_set_bit s i j : cs_wf s -> 0 <= i < 1024 -> 0 <= j < 1024 ->
   test_bit (set_bit s i) j = (j =? i) || test_bit s j.
 Proof.
-  intros [L _] Hi Hj. unfold test_bit, set_bit.
+  intros [L _] Hi Hj. unfold test_bit, set_bit. rewrite !widx_eq, !bidx_eq.
   destruct (word_index i Hi) as [Wi Bi]. destruct (word_index j Hj) as [Wj Bj].
   destruct (Nat.eq_dec (Z.to_nat (i / 64)) (Z.to_nat (j / 64))) as [E|E].
   - rewrite <- E. rewrite nth_upd_nth_same by (rewrite L; exact Wi).
@@ -103,7 +109,7 @@ Qed.
 Lemma test_clr_bit s i j : cs_wf s -> 0 <= i < 1024 -> 0 <= j < 1024 ->
   test_bit (clr_bit s i) j = negb (j =? i) && test_bit s j.
 Proof.
-  intros [L _] Hi Hj. unfold test_bit, clr_bit.
+  intros [L _] Hi Hj. unfold test_bit, clr_bit. rewrite !widx_eq, !bidx_eq.
   destruct (word_index i Hi) as [Wi Bi]. destruct (word_index j Hj) as [Wj Bj].
   destruct (Nat.eq_dec (Z.to_nat (i / 64)) (Z.to_nat (j / 64))) as [E|E].
   - rewrite <- E. rewrite nth_upd_nth_same by (rewrite L; exact Wi).
@@ -148,7 +154,7 @@ Proof. intros E; unfold cs_remove; rewrite E; reflexivity. Qed.
 Lemma contains_empty i : cs_contains cs_empty i = false.
 Proof.
   unfold cs_contains. destruct (in_cap i) eqn:E; [|reflexivity]. apply in_cap_iff in E.
-  unfold test_bit, cs_empty. destruct (word_index i E) as [W _].
+  unfold test_bit, cs_empty. rewrite widx_eq, bidx_eq. destruct (word_index i E) as [W _].
   assert (R : forall n k, nth k (repeat 0 n) 0 = 0).
   { induction n; intros [|k]; simpl; auto. }
   rewrite R. apply Z.bits_0.
@@ -315,7 +321,7 @@ Proof.
   rewrite Z.sub_0_r.
   replace (Z.to_nat i) with (64 * Z.to_nat (i / 64) + Z.to_nat (i mod 64))%nat by lia.
   rewrite nth_flat by (try rewrite L; unfold NWORDS; lia).
-  unfold cs_contains. rewrite (proj2 (in_cap_iff i) Hi'). unfold test_bit. rewrite Z2Nat.id by lia. reflexivity.
+  unfold cs_contains. rewrite (proj2 (in_cap_iff i) Hi'). unfold test_bit. rewrite widx_eq, bidx_eq, Z2Nat.id by lia. reflexivity.
 Qed.
 
 (* ============================================================================================ B. operation sequences *)
@@ -577,8 +583,7 @@ Proof.
     cbv zeta. rewrite !parseIntClamped_digits by assumption. unfold clamp_ok.
     pose proof (dval_nonneg n). pose proof (dval_nonneg m).
     destruct (kMaxReasonableCpuId <? dval n); destruct (kMaxReasonableCpuId <? dval m); cbn [negb andb]; try reflexivity.
-    + destruct (0 <=? dval m); reflexivity.
-    + destruct (Z.leb_spec 0 (dval n)); [|lia]. destruct (Z.leb_spec 0 (dval m)); [reflexivity|lia].
+    all: destruct (Z.leb_spec 0 (dval n)); try lia; destruct (Z.leb_spec 0 (dval m)); try lia; reflexivity.
 Qed.
 
 Lemma kmax_val : kMaxReasonableCpuId = 1048576.
@@ -640,4 +645,459 @@ Definition refute_items : list item := [IRange [48] [49; 48; 52; 56; 53; 55; 55]
 Lemma parse_denotes_refuted_witness :
   forallb item_okb refute_items = true /\ list_lossy refute_items = true /\
   cs_contains (parseLinuxCpuList (render_list refute_items)) 0 = false /\ in_cap 0 && denotes refute_items 0 = true.
+Proof. vm_compute. auto. Qed.
+
+(* ============================================================================================ D. grouping *)
+Definition nonnil (l : list Z) : bool := match l with [] => false | _ => true end.
+(* the L3 index the code assigns to an L2 atom: that of its first cpu *)
+Definition atom_l3 (l3s : list (list Z)) (a : list Z) : Z := l3_index l3s (hd 0 a).
+(* a run of L2 atoms never contains two atoms with different known L3 indices *)
+Definition run_coherent (l3s : list (list Z)) (r : list (list Z)) : Prop :=
+  forall a b, In a r -> In b r -> 0 <= atom_l3 l3s a -> 0 <= atom_l3 l3s b -> atom_l3 l3s a = atom_l3 l3s b.
+Definition group_of_run (r : list (list Z)) : list Z := isort (concat r).
+
+(* ---- sorting *)
+Lemma insert_sorted_perm x l : Permutation (insert_sorted x l) (x :: l).
+Proof.
+  induction l as [|y r IH]; cbn [insert_sorted]; [apply Permutation_refl|].
+  destruct (x <=? y); [apply Permutation_refl|].
+  apply perm_trans with (y :: x :: r); [apply perm_skip; exact IH|apply perm_swap].
+Qed.
+
+Lemma isort_perm l : Permutation (isort l) l.
+Proof.
+  induction l as [|x r IH]; cbn [isort fold_right]; [apply Permutation_refl|].
+  fold (isort r). apply perm_trans with (x :: isort r); [apply insert_sorted_perm|apply perm_skip; exact IH].
+Qed.
+
+Lemma insert_sorted_hdrel a x l : a <= x -> HdRel Z.le a l -> HdRel Z.le a (insert_sorted x l).
+Proof.
+  intros H Hd. destruct l as [|y r]; cbn [insert_sorted]; [constructor; exact H|].
+  destruct (x <=? y); constructor; [exact H|]. inversion Hd; assumption.
+Qed.
+
+Lemma insert_sorted_sorted x l : Sorted Z.le l -> Sorted Z.le (insert_sorted x l).
+Proof.
+  induction 1 as [|y r S IH Hd]; cbn [insert_sorted]; [repeat constructor|].
+  destruct (Z.leb_spec x y).
+  - constructor; [constructor; assumption|constructor; assumption].
+  - constructor; [exact IH|]. apply insert_sorted_hdrel; [lia|exact Hd].
+Qed.
+
+Lemma isort_sorted l : Sorted Z.le (isort l).
+Proof.
+  induction l as [|x r IH]; cbn [isort fold_right]; [constructor|]. fold (isort r). apply insert_sorted_sorted; exact IH.
+Qed.
+
+Lemma zlen_isort l : zlen (isort l) = zlen l.
+Proof. unfold zlen. f_equal. apply Permutation_length. apply isort_perm. Qed.
+
+Lemma zlen_app a b : zlen (a ++ b) = zlen a + zlen b.
+Proof. unfold zlen. rewrite app_length. lia. Qed.
+
+Lemma zlen_nonneg a : 0 <= zlen a.
+Proof. unfold zlen. lia. Qed.
+
+(* ---- largest *)
+Lemma fold_max_ge gs : forall m0, m0 <= fold_left (fun m g => Z.max m (zlen g)) gs m0.
+Proof. induction gs as [|g r IH]; intros m0; cbn [fold_left]; [lia|]. specialize (IH (Z.max m0 (zlen g))). lia. Qed.
+
+Lemma fold_max_in gs a : In a gs -> forall m0, zlen a <= fold_left (fun m g => Z.max m (zlen g)) gs m0.
+Proof.
+  induction gs as [|g r IH]; intros H m0; [destruct H|]. cbn [fold_left]. destruct H as [->|H].
+  - pose proof (fold_max_ge r (Z.max m0 (zlen a))). lia.
+  - apply IH; exact H.
+Qed.
+
+Lemma largest_ge gs a : In a gs -> zlen a <= largest gs.
+Proof. intros H. apply fold_max_in; exact H. Qed.
+
+(* ---- list helpers *)
+Lemma filter_nonnil_snoc_nil P : filter nonnil (P ++ [[]]) = filter nonnil P.
+Proof. rewrite filter_app. cbn [filter nonnil]. apply app_nil_r. Qed.
+
+Lemma filter_nonnil_snoc P c t : filter nonnil (P ++ [c :: t]) = filter nonnil P ++ [c :: t].
+Proof. rewrite filter_app. reflexivity. Qed.
+
+Lemma concat_snoc {A} (l : list (list A)) x : concat (l ++ [x]) = concat l ++ x.
+Proof. rewrite concat_app. cbn [concat]. rewrite app_nil_r. reflexivity. Qed.
+
+Lemma concat_nonnil_atoms (cur : list (list Z)) : Forall (fun a => a <> []) cur -> concat cur = [] -> cur = [].
+Proof.
+  intros F E. destruct cur as [|a r]; [reflexivity|]. exfalso. inversion F as [|? ? Ha _]; subst.
+  cbn [concat] in E. apply app_eq_nil in E. destruct E; contradiction.
+Qed.
+
+(* ---- the loop invariant *)
+Definition ginv (l3s : list (list Z)) (M : Z) (P : list (list Z)) (st : gstate) : Prop :=
+  exists runs cur,
+    filter nonnil P = concat runs ++ cur /\
+    g_out st = map group_of_run runs /\
+    g_pending st = concat cur /\
+    Forall (fun r => r <> []) runs /\
+    Forall (fun a => a <> []) cur /\
+    Forall (run_coherent l3s) runs /\
+    (forall a, In a cur -> atom_l3 l3s a < 0 \/ atom_l3 l3s a = g_cur st) /\
+    Forall (fun r => zlen (concat r) <= M) runs /\
+    zlen (concat cur) <= M.
+
+Lemma ginv_init l3s M : 0 <= M -> ginv l3s M [] (GS [] [] (-1)).
+Proof.
+  intros HM. exists [], []. cbn. repeat split; auto. intros a [].
+Qed.
+
+Lemma cur_coherent l3s cur k : (forall a, In a cur -> atom_l3 l3s a < 0 \/ atom_l3 l3s a = k) -> run_coherent l3s cur.
+Proof.
+  intros H a b Ha Hb Ka Kb. destruct (H a Ha) as [|Ea]; [lia|]. destruct (H b Hb) as [|Eb]; [lia|]. congruence.
+Qed.
+
+Lemma gstep_cons l3s M st c0 t :
+  gstep l3s M st (c0 :: t) =
+  if negb (l3_index l3s c0 =? g_cur st) && (0 <=? g_cur st) || (M <? zlen (g_pending st) + zlen (c0 :: t))
+  then GS (flush (g_pending st) (g_out st)) (c0 :: t) (l3_index l3s c0)
+  else GS (g_out st) (g_pending st ++ c0 :: t) (l3_index l3s c0).
+Proof. reflexivity. Qed.
+
+Lemma ginv_step l3s M P st y : ginv l3s M P st -> zlen y <= M -> ginv l3s M (P ++ [y]) (gstep l3s M st y).
+Proof.
+  intros (runs & cur & EP & EO & EPend & NR & NC & CR & CC & SR & SC) Hy.
+  destruct y as [|c0 t].
+  { (* empty L2 entries are skipped *)
+    cbn [gstep]. exists runs, cur. rewrite filter_nonnil_snoc_nil. repeat split; assumption. }
+  unfold ginv. rewrite gstep_cons. rewrite filter_nonnil_snoc.
+  set (y := c0 :: t) in *. set (k := l3_index l3s c0).
+  assert (Ky : atom_l3 l3s y = k) by reflexivity.
+  assert (Ny : y <> []) by discriminate.
+  assert (A1 : Forall (fun a : list Z => a <> []) [y]) by (constructor; [exact Ny|constructor]).
+  assert (A2 : forall a, In a [y] -> atom_l3 l3s a < 0 \/ atom_l3 l3s a = k) by (intros a [<-|[]]; right; exact Ky).
+  destruct (negb (k =? g_cur st) && (0 <=? g_cur st) || (M <? zlen (g_pending st) + zlen y)) eqn:FL.
+  - (* flush, then start a new run with y *)
+    destruct cur as [|a0 cr].
+    + exists runs, [y]. cbn [g_out g_pending g_cur]. rewrite EPend. cbn [concat flush].
+      rewrite EP, !app_nil_r.
+      repeat split; try assumption; try reflexivity.
+    + assert (NP : concat (a0 :: cr) <> []).
+      { intros E. apply concat_nonnil_atoms in E; [discriminate|exact NC]. }
+      assert (B1 : Forall (fun r : list (list Z) => r <> []) (runs ++ [a0 :: cr])).
+      { apply Forall_app; split; [exact NR|]. constructor; [discriminate|constructor]. }
+      assert (B2 : Forall (run_coherent l3s) (runs ++ [a0 :: cr])).
+      { apply Forall_app; split; [exact CR|]. constructor; [|constructor]. eapply cur_coherent; exact CC. }
+      assert (B3 : Forall (fun r : list (list Z) => zlen (concat r) <= M) (runs ++ [a0 :: cr])).
+      { apply Forall_app; split; [exact SR|]. constructor; [exact SC|constructor]. }
+      exists (runs ++ [a0 :: cr]), [y]. cbn [g_out g_pending g_cur]. rewrite EPend.
+      unfold flush. destruct (concat (a0 :: cr)) as [|p0 pr] eqn:EC; [congruence|]. rewrite <- EC.
+      rewrite EP, concat_snoc, map_app, EO. cbn [map concat].
+      rewrite !app_nil_r.
+      repeat split; try assumption; try reflexivity.
+  - (* y joins the pending run *)
+    apply orb_false_iff in FL. destruct FL as [CRS EXC]. apply Z.ltb_ge in EXC.
+    rewrite EPend in EXC.
+    assert (C1 : Forall (fun a : list Z => a <> []) (cur ++ [y])).
+    { apply Forall_app; split; [exact NC|exact A1]. }
+    assert (C2 : forall a, In a (cur ++ [y]) -> atom_l3 l3s a < 0 \/ atom_l3 l3s a = k).
+    { intros a Ha. apply in_app_or in Ha. destruct Ha as [Ha|Ha]; [|apply A2; exact Ha].
+      destruct (CC a Ha) as [Neg|Eq]; [left; exact Neg|].
+      apply andb_false_iff in CRS. destruct CRS as [X|X].
+      - apply negb_false_iff, Z.eqb_eq in X. right. rewrite Eq. symmetry. exact X.
+      - apply Z.leb_gt in X. left. rewrite Eq. exact X. }
+    assert (C3 : zlen (concat cur ++ y) <= M) by (rewrite zlen_app; exact EXC).
+    exists runs, (cur ++ [y]). cbn [g_out g_pending g_cur]. rewrite EPend.
+    rewrite EP, concat_snoc, app_assoc.
+    repeat split; try assumption; try reflexivity.
+Qed.
+
+Lemma ginv_fold l3s M l : forall P st, ginv l3s M P st -> (forall a, In a l -> zlen a <= M) ->
+  ginv l3s M (P ++ l) (fold_left (gstep l3s M) l st).
+Proof.
+  induction l as [|y r IH]; intros P st I H; cbn [fold_left].
+  - rewrite app_nil_r. exact I.
+  - replace (P ++ y :: r) with ((P ++ [y]) ++ r) by (rewrite <- app_assoc; reflexivity).
+    apply IH; [apply ginv_step; [exact I|apply H; left; reflexivity]|intros a Ha; apply H; right; exact Ha].
+Qed.
+
+(* the structure of the result: the non-empty L2 atoms, in order, are cut into consecutive runs; each output
+   group is the sorted concatenation of one run; every run is L3-coherent and within the (clamped) size bound *)
+Lemma build_structure l2s l3s mg :
+  exists runs,
+    concat runs = filter nonnil l2s /\
+    buildGroups l2s l3s mg = map group_of_run runs /\
+    Forall (fun r => r <> []) runs /\
+    Forall (run_coherent l3s) runs /\
+    Forall (fun r => zlen (concat r) <= Z.max mg (largest l2s)) runs.
+Proof.
+  unfold buildGroups. cbv zeta. set (M := Z.max mg (largest l2s)).
+  assert (HM : 0 <= M). { pose proof (fold_max_ge l2s 0). unfold largest in M. lia. }
+  pose proof (ginv_fold l3s M l2s [] (GS [] [] (-1)) (ginv_init l3s M HM)) as I.
+  cbn [app] in I. specialize (I ltac:(intros a Ha; pose proof (largest_ge l2s a Ha); lia)).
+  destruct I as (runs & cur & EP & EO & EPend & NR & NC & CR & CC & SR & SC).
+  rewrite EO, EPend. destruct cur as [|a0 cr].
+  - exists runs. cbn [concat flush]. rewrite app_nil_r in EP. auto.
+  - assert (NP : concat (a0 :: cr) <> []).
+    { intros E. apply concat_nonnil_atoms in E; [discriminate|exact NC]. }
+    assert (B1 : Forall (fun r : list (list Z) => r <> []) (runs ++ [a0 :: cr])).
+    { apply Forall_app; split; [exact NR|]. constructor; [discriminate|constructor]. }
+    assert (B2 : Forall (run_coherent l3s) (runs ++ [a0 :: cr])).
+    { apply Forall_app; split; [exact CR|]. constructor; [|constructor]. eapply cur_coherent; exact CC. }
+    assert (B3 : Forall (fun r : list (list Z) => zlen (concat r) <= M) (runs ++ [a0 :: cr])).
+    { apply Forall_app; split; [exact SR|]. constructor; [exact SC|constructor]. }
+    exists (runs ++ [a0 :: cr]). unfold flush. destruct (concat (a0 :: cr)) as [|p0 pr] eqn:EC; [congruence|]. rewrite <- EC.
+    rewrite concat_snoc, map_app. cbn [map]. rewrite EP.
+    repeat split; try assumption; try reflexivity.
+Qed.
+
+(* ---- consequences *)
+Lemma concat_filter_nonnil l : concat (filter nonnil l) = concat l.
+Proof. induction l as [|a r IH]; [reflexivity|]. destruct a; cbn [filter nonnil concat]; rewrite IH; reflexivity. Qed.
+
+Lemma concat_concat_map {A} (l : list (list (list A))) : concat (concat l) = concat (map (@concat A) l).
+Proof. induction l as [|x r IH]; [reflexivity|]. cbn [concat map]. rewrite concat_app, IH. reflexivity. Qed.
+
+Lemma perm_concat_map {A B} (f g : A -> list B) l : (forall x, Permutation (f x) (g x)) ->
+  Permutation (concat (map f l)) (concat (map g l)).
+Proof. intros H. induction l as [|x r IH]; cbn [map concat]; [apply Permutation_refl|]. apply Permutation_app; auto. Qed.
+
+Lemma groups_perm l2s l3s mg : Permutation (concat (buildGroups l2s l3s mg)) (concat l2s).
+Proof.
+  destruct (build_structure l2s l3s mg) as (runs & EC & EB & _). rewrite EB.
+  rewrite <- (concat_filter_nonnil l2s), <- EC, concat_concat_map.
+  apply perm_concat_map. intros r. apply isort_perm.
+Qed.
+
+Lemma runs_atoms_nonnil (runs : list (list (list Z))) l2s : concat runs = filter nonnil l2s ->
+  forall r a, In r runs -> In a r -> a <> [] /\ In a l2s.
+Proof.
+  intros EC r a Hr Ha. assert (X : In a (filter nonnil l2s)).
+  { rewrite <- EC. apply in_concat. exists r. auto. }
+  apply filter_In in X. destruct X as [X1 X2]. split; [|exact X1]. destruct a; [discriminate|discriminate].
+Qed.
+
+Lemma groups_nonempty l2s l3s mg : Forall (fun g => g <> []) (buildGroups l2s l3s mg).
+Proof.
+  destruct (build_structure l2s l3s mg) as (runs & EC & EB & NR & _). rewrite EB.
+  apply Forall_forall. intros g Hg. apply in_map_iff in Hg. destruct Hg as (r & <- & Hr).
+  rewrite Forall_forall in NR. specialize (NR r Hr). destruct r as [|a t]; [congruence|].
+  destruct (runs_atoms_nonnil runs l2s EC (a :: t) a Hr (or_introl eq_refl)) as [Na _].
+  intros E. unfold group_of_run in E.
+  assert (L : zlen (isort (concat (a :: t))) = 0) by (rewrite E; reflexivity).
+  rewrite zlen_isort in L. cbn [concat] in L. rewrite zlen_app in L. pose proof (zlen_nonneg (concat t)).
+  destruct a; [congruence|]. unfold zlen in L at 1. cbn [length] in L. lia.
+Qed.
+
+Lemma groups_sorted l2s l3s mg : Forall (Sorted Z.le) (buildGroups l2s l3s mg).
+Proof.
+  destruct (build_structure l2s l3s mg) as (runs & _ & EB & _). rewrite EB.
+  apply Forall_forall. intros g Hg. apply in_map_iff in Hg. destruct Hg as (r & <- & _). apply isort_sorted.
+Qed.
+
+Lemma in_group_of_run r c : In c (group_of_run r) <-> exists a, In a r /\ In c a.
+Proof.
+  unfold group_of_run. split.
+  - intros H. apply (Permutation_in _ (isort_perm _)) in H. apply in_concat in H. destruct H as (a & Ha & Hc). eauto.
+  - intros (a & Ha & Hc). apply (Permutation_in _ (Permutation_sym (isort_perm _))). apply in_concat. eauto.
+Qed.
+
+(* every non-empty L2 atom lies entirely inside one output group *)
+Lemma atom_in_some_group l2s l3s mg a : In a l2s -> a <> [] ->
+  exists g, In g (buildGroups l2s l3s mg) /\ incl a g.
+Proof.
+  intros Ha Na. destruct (build_structure l2s l3s mg) as (runs & EC & EB & _). rewrite EB.
+  assert (X : In a (concat runs)).
+  { rewrite EC. apply filter_In. split; [exact Ha|]. destruct a; [congruence|reflexivity]. }
+  apply in_concat in X. destruct X as (r & Hr & Har).
+  exists (group_of_run r). split; [apply in_map; exact Hr|].
+  intros c Hc. apply in_group_of_run. eauto.
+Qed.
+
+Lemma nodup_app_parts {A} (x r : list A) : NoDup (x ++ r) -> NoDup r /\ forall y, In y x -> ~ In y r.
+Proof.
+  induction x as [|h t IH]; cbn [app]; intros ND.
+  - split; [exact ND|]. intros y [].
+  - inversion ND as [|? ? Nin ND']; subst. destruct (IH ND') as [N1 N2]. split; [exact N1|].
+    intros y [<-|Hy]; [|apply N2; exact Hy]. intros Hc. apply Nin. apply in_or_app. right; exact Hc.
+Qed.
+
+Lemma nodup_concat_unique {A} (L : list (list A)) g1 g2 c :
+  NoDup (concat L) -> In g1 L -> In g2 L -> In c g1 -> In c g2 -> g1 = g2.
+Proof.
+  induction L as [|x r IH]; intros ND H1 H2 C1 C2; [destruct H1|].
+  cbn [concat] in ND. destruct (nodup_app_parts _ _ ND) as [NDr Dis].
+  destruct H1 as [<-|H1]; destruct H2 as [<-|H2].
+  - reflexivity.
+  - exfalso. apply (Dis c C1). apply in_concat. eauto.
+  - exfalso. apply (Dis c C2). apply in_concat. eauto.
+  - apply IH; assumption.
+Qed.
+
+(* with pairwise disjoint L2 atoms: a group that touches an atom contains all of it *)
+Lemma never_splits l2s l3s mg : NoDup (concat l2s) ->
+  forall a g c, In a l2s -> In g (buildGroups l2s l3s mg) -> In c a -> In c g -> incl a g.
+Proof.
+  intros ND a g c Ha Hg Hca Hcg.
+  assert (Na : a <> []) by (destruct a; [destruct Hca|discriminate]).
+  destruct (atom_in_some_group l2s l3s mg a Ha Na) as (g0 & Hg0 & Inc).
+  assert (NDg : NoDup (concat (buildGroups l2s l3s mg))).
+  { apply (Permutation_NoDup (Permutation_sym (groups_perm l2s l3s mg))). exact ND. }
+  rewrite (nodup_concat_unique _ g g0 c NDg Hg Hg0 Hcg (Inc c Hca)). exact Inc.
+Qed.
+
+Lemma group_size l2s l3s mg g : In g (buildGroups l2s l3s mg) -> zlen g <= Z.max mg (largest l2s).
+Proof.
+  destruct (build_structure l2s l3s mg) as (runs & _ & EB & _ & _ & SR). rewrite EB.
+  intros Hg. apply in_map_iff in Hg. destruct Hg as (r & <- & Hr).
+  unfold group_of_run. rewrite zlen_isort. rewrite Forall_forall in SR. apply SR; exact Hr.
+Qed.
+
+(* every cpu of an L2 atom has the L3 index of the atom's first cpu (caches nest) *)
+Definition l2_nested (l2s l3s : list (list Z)) : Prop :=
+  forall a c, In a l2s -> In c a -> l3_index l3s c = l3_index l3s (hd 0 a).
+
+Lemma never_mixes_l3 l2s l3s mg : l2_nested l2s l3s ->
+  forall g c d, In g (buildGroups l2s l3s mg) -> In c g -> In d g ->
+  0 <= l3_index l3s c -> 0 <= l3_index l3s d -> l3_index l3s c = l3_index l3s d.
+Proof.
+  intros NEST g c d Hg Hc Hd Kc Kd.
+  destruct (build_structure l2s l3s mg) as (runs & EC & EB & _ & CR & _). rewrite EB in Hg.
+  apply in_map_iff in Hg. destruct Hg as (r & <- & Hr).
+  apply in_group_of_run in Hc. destruct Hc as (a & Ha & Hca).
+  apply in_group_of_run in Hd. destruct Hd as (b & Hb & Hdb).
+  destruct (runs_atoms_nonnil runs l2s EC r a Hr Ha) as [_ Ha2].
+  destruct (runs_atoms_nonnil runs l2s EC r b Hr Hb) as [_ Hb2].
+  rewrite (NEST a c Ha2 Hca) in *. rewrite (NEST b d Hb2 Hdb) in *.
+  rewrite Forall_forall in CR. exact (CR r Hr a b Ha Hb Kc Kd).
+Qed.
+
+(* ---- what l3_index means *)
+Lemma memb_In c l : memb c l = true <-> In c l.
+Proof.
+  unfold memb. rewrite existsb_exists. split.
+  - intros (x & Hx & E). apply Z.eqb_eq in E. subst. exact Hx.
+  - intros H. exists c. split; [exact H|apply Z.eqb_refl].
+Qed.
+
+Lemma l3_index_from_spec l3s c : forall g, 0 <= g ->
+  let k := l3_index_from g l3s c in
+  (k = -1 /\ forall grp, In grp l3s -> ~ In c grp) \/
+  (g <= k < g + Z.of_nat (length l3s) /\ In c (nth (Z.to_nat (k - g)) l3s []) /\
+   forall j, (j < length l3s)%nat -> In c (nth j l3s []) -> g + Z.of_nat j <= k).
+Proof.
+  induction l3s as [|grp r IH]; intros g Hg; cbn [l3_index_from].
+  - left. split; [reflexivity|]. intros ? [].
+  - cbv zeta. specialize (IH (g + 1) ltac:(lia)). cbv zeta in IH.
+    destruct (Z.leb_spec 0 (l3_index_from (g + 1) r c)) as [P|P].
+    + destruct IH as [[E _]|(R & I & Mx)]; [lia|]. right. cbn [length]. split; [lia|]. split.
+      * replace (Z.to_nat (l3_index_from (g + 1) r c - g)) with (S (Z.to_nat (l3_index_from (g + 1) r c - (g + 1)))) by lia.
+        exact I.
+      * intros [|j] Hj Hin; [lia|]. cbn [nth] in Hin. cbn [length] in Hj. specialize (Mx j ltac:(lia) Hin). lia.
+    + destruct IH as [[E No]|(R & _)]; [|lia].
+      destruct (memb c grp) eqn:Mb.
+      * apply memb_In in Mb. right. cbn [length]. split; [lia|]. split.
+        -- rewrite Z.sub_diag. exact Mb.
+        -- intros [|j] Hj Hin; [lia|]. cbn [nth] in Hin. exfalso. cbn [length] in Hj.
+           apply (No (nth j r [])); [apply nth_In; lia|exact Hin].
+      * left. split; [reflexivity|]. intros grp' [<-|Hin]; [|apply No; exact Hin].
+        intros Hc. apply memb_In in Hc. congruence.
+Qed.
+
+Lemma l3_index_spec l3s c :
+  (l3_index l3s c = -1 /\ forall grp, In grp l3s -> ~ In c grp) \/
+  (0 <= l3_index l3s c < Z.of_nat (length l3s) /\ In c (nth (Z.to_nat (l3_index l3s c)) l3s []) /\
+   forall j, (j < length l3s)%nat -> In c (nth j l3s []) -> Z.of_nat j <= l3_index l3s c).
+Proof.
+  unfold l3_index. pose proof (l3_index_from_spec l3s c 0 ltac:(lia)) as H. cbv zeta in H.
+  destruct H as [H|(R & I & Mx)]; [left; exact H|right]. rewrite Z.sub_0_r in I. split; [lia|]. split; [exact I|].
+  intros j Hj Hin. specialize (Mx j Hj Hin). lia.
+Qed.
+
+(* ---- affinity masks *)
+Lemma from_ids_fold cpus i : forall s, cs_wf s ->
+  cs_wf (fold_left cs_add cpus s) /\
+  cs_contains (fold_left cs_add cpus s) i = cs_contains s i || (in_cap i && memb i cpus).
+Proof.
+  induction cpus as [|c r IH]; intros s W; cbn [fold_left].
+  - split; [exact W|]. unfold memb. cbn [existsb]. rewrite andb_false_r, orb_false_r. reflexivity.
+  - destruct (IH (cs_add s c) (cs_add_wf s c W)) as [W' M]. split; [exact W'|].
+    rewrite M, contains_add by exact W. unfold memb. cbn [existsb].
+    destruct (in_cap i), (i =? c), (cs_contains s i), (existsb (Z.eqb i) r); reflexivity.
+Qed.
+
+Lemma from_ids_mem cpus i : cs_contains (cs_from_ids cpus) i = in_cap i && memb i cpus.
+Proof.
+  unfold cs_from_ids. destruct (from_ids_fold cpus i cs_empty cs_empty_wf) as [_ M]. rewrite M, contains_empty. reflexivity.
+Qed.
+
+(* ============================================================================================ E. the judges' helpers *)
+Lemma piece_iv_mem p i : iv_mem (piece_iv p) i = piece_mem p i.
+Proof.
+  unfold piece_iv, piece_mem, iv_mem. destruct p as [|c r]; [reflexivity|].
+  destruct (split_first CH_MINUS (c :: r)) as [[a b]|]; cbv zeta.
+  - destruct ((0 <=? parseIntClamped a) && (0 <=? parseIntClamped b)); reflexivity.
+  - destruct (0 <=? parseIntClamped (c :: r)); [|reflexivity].
+    cbn [andb]. destruct (Z.leb_spec (parseIntClamped (c :: r)) i); destruct (Z.leb_spec i (parseIntClamped (c :: r)));
+      destruct (Z.eqb_spec i (parseIntClamped (c :: r))); try reflexivity; lia.
+Qed.
+
+Lemma recog_sound s its : recog s = Some its -> render_list its = s /\ forallb item_okb its = true.
+Proof.
+  unfold recog. destruct (all_some (map recog_item (split_on CH_COMMA s))) as [l|]; [|discriminate].
+  destruct (zlist_eqb (render_list l) s && forallb item_okb l) eqn:E; [|discriminate].
+  intros H; injection H as <-. apply andb_true_iff in E. destruct E as [E1 E2]. split; [|exact E2].
+  clear E2. revert E1. unfold zlist_eqb. generalize (render_list l). intros x. revert s.
+  induction x as [|a r IH]; intros [|b t]; cbn [list_eqb]; try discriminate; [reflexivity|].
+  rewrite andb_true_iff, Z.eqb_eq. intros [-> H]. f_equal. apply IH; exact H.
+Qed.
+
+Lemma bits_spec n : forall w, bits n w = map (Z.testbit w) (zrange 0 n).
+Proof.
+  induction n as [|n IH]; intros w; [reflexivity|].
+  change (bits (S n) w) with (Z.odd w :: bits n (Z.div2 w)).
+  change (zrange 0 (S n)) with (0 :: zrange (0 + 1) n).
+  cbn [map]. rewrite Z.bit0_odd. f_equal. rewrite IH.
+  rewrite zrange_shift, map_map.
+  apply map_ext_in. intros k Hk. apply zrange_In in Hk.
+  rewrite Z.div2_spec, Z.shiftr_spec by lia. reflexivity.
+Qed.
+
+Lemma decode_flat ws : decode ws = concat (map bits_of ws).
+Proof.
+  unfold decode. rewrite flat_map_concat_map. f_equal. apply map_ext. intros w. apply bits_spec.
+Qed.
+
+Lemma list_eqb_bool_eq l1 : forall l2, bools_eqb l1 l2 = true -> l1 = l2.
+Proof.
+  unfold bools_eqb. induction l1 as [|a r IH]; intros [|b t]; cbn [list_eqb]; try discriminate; [reflexivity|].
+  rewrite andb_true_iff. intros [E H]. apply eqb_prop in E. subst. f_equal. apply IH; exact H.
+Qed.
+
+Lemma cs_wfb_wf ws : cs_wfb ws = true -> cs_wf ws.
+Proof.
+  unfold cs_wfb, cs_wf. rewrite andb_true_iff, Nat.eqb_eq, forallb_forall. intros [L F]. split; [exact L|].
+  apply Forall_forall. intros w Hw. specialize (F w Hw). rewrite andb_true_iff, Z.leb_le, Z.ltb_lt in F. exact F.
+Qed.
+
+(* the judge's test "these words denote exactly this set" means what it says *)
+Lemma words_denote_sound ws mem : words_denote ws mem = true ->
+  cs_wf ws /\ forall i, cs_contains ws i = in_cap i && mem i.
+Proof.
+  unfold words_denote. rewrite andb_true_iff. intros [W E]. apply cs_wfb_wf in W. split; [exact W|].
+  apply list_eqb_bool_eq in E. intros i. unfold cs_contains. destruct (in_cap i) eqn:Hi; [|reflexivity].
+  apply in_cap_iff in Hi. destruct (word_index i Hi) as [Wq Wr]. destruct W as [L _].
+  assert (N : nth (Z.to_nat i) (decode ws) false = test_bit ws i).
+  { rewrite decode_flat. replace (Z.to_nat i) with (64 * Z.to_nat (i / 64) + Z.to_nat (i mod 64))%nat by lia.
+    rewrite nth_flat by (try rewrite L; unfold NWORDS; lia). unfold test_bit. rewrite widx_eq, bidx_eq, Z2Nat.id by lia. reflexivity. }
+  rewrite <- N, E. cbn [andb].
+  rewrite nth_indep with (d' := mem 0) by (rewrite map_length; unfold all_ids; rewrite zrange_length; lia).
+  rewrite map_nth. unfold all_ids. rewrite nth_zrange by lia. f_equal. lia.
+Qed.
+
+Lemma ivs_mem_denotes its i : ivs_mem (map item_iv its) i = denotes its i.
+Proof.
+  unfold ivs_mem, denotes. rewrite existsb_map_comp. apply existsb_ext_in. intros it _.
+  destruct it as [n|n m]; cbn [item_iv item_mem fst snd]; [|reflexivity].
+  destruct (Z.leb_spec (dval n) i); destruct (Z.leb_spec i (dval n)); destruct (Z.eqb_spec i (dval n)); try reflexivity; lia.
+Qed.
+
+(* without nesting of L2 inside L3 the code can put cpus of two known L3 groups in one thread group: it only looks at
+   the first cpu of each L2 atom *)
+Lemma l3_mix_needs_nesting :
+  buildGroups [[0; 1]] [[0]; [1]] 16 = [[0; 1]] /\ l3_index [[0]; [1]] 0 = 0 /\ l3_index [[0]; [1]] 1 = 1.
 Proof. vm_compute. auto. Qed.
